@@ -65,4 +65,3 @@ func upstreamFor(rel string) [][]rune {
 	})
 	return upstreamTexts[rel]
 }
-
